@@ -175,8 +175,17 @@ impl Http1Parser {
             let header_name_lower = header.name.to_lowercase();
 
             if header_name_lower == "cookie" {
+                // A request may carry its cookies on several Cookie lines; keep them all, in
+                // wire order, joined the way RFC 7540 8.1.2.5 joins split cookie fields
                 if let Some(ref value) = header.value {
-                    cookie_header_value = Some(value.clone());
+                    cookie_header_value = Some(match cookie_header_value.take() {
+                        Some(mut all) => {
+                            all.push_str("; ");
+                            all.push_str(value);
+                            all
+                        }
+                        None => value.clone(),
+                    });
                 }
             } else if header_name_lower == "referer" {
                 if let Some(ref value) = header.value {
